@@ -1231,3 +1231,109 @@ func (p *Prog) FieldUses(fld *types.Var) []FieldUse {
 	}
 	return out
 }
+
+// flagTrueEdges: edges of If instructions on a boolean flag (a φ-web of constants)
+// that are taken only if the flag was set to true after passing an edge of E
+// ("loop with break" written as "loop with flag": found := false; for … { if c { found = true } }; if found { … }).
+func flagTrueEdges(fn *ssa.Function, E EdgeSet) EdgeSet {
+	out := EdgeSet{}
+	for _, b := range fn.Blocks {
+		if len(b.Instrs) == 0 {
+			continue
+		}
+		ifi, ok := b.Instrs[len(b.Instrs)-1].(*ssa.If)
+		if !ok {
+			continue
+		}
+		inner, pos := unNot(ifi.Cond)
+		root, ok := inner.(*ssa.Phi)
+		if !ok {
+			continue
+		}
+		seen := map[*ssa.Phi]bool{}
+		good := true
+		nTrue := 0
+		var walk func(ph *ssa.Phi)
+		walk = func(ph *ssa.Phi) {
+			if seen[ph] {
+				return
+			}
+			seen[ph] = true
+			for i, e := range ph.Edges {
+				switch x := e.(type) {
+				case *ssa.Phi:
+					walk(x)
+				case *ssa.Const:
+					if x.Value == nil || x.Value.Kind() != constant.Bool {
+						good = false
+						return
+					}
+					if constant.BoolVal(x.Value) {
+						nTrue++
+						pred := ph.Block().Preds[i]
+						// the predecessor must be reachable only through E
+						if in, _ := (Query{Fn: fn, Cut: E}).FromEntry(func(in ssa.Instruction) bool { return in.Block() == pred }); in != nil {
+							good = false
+						}
+					}
+				default:
+					good = false
+				}
+			}
+		}
+		walk(root)
+		if !good || nTrue == 0 {
+			continue
+		}
+		if pos {
+			out[Edge{b, 0}] = true
+		} else {
+			out[Edge{b, 1}] = true
+		}
+	}
+	return out
+}
+
+// vMember matches a boolean that is true exactly when key is in the set-like map:
+// the ok of `_, ok := m[key]`, or m[key] itself for a map[K]bool into which the
+// module only ever stores the constant true.
+func (p *Prog) vMember(set VM, key VM) VM {
+	return func(v ssa.Value) bool {
+		v = strip(v)
+		if e, ok := v.(*ssa.Extract); ok && e.Index == 1 {
+			lk, ok := e.Tuple.(*ssa.Lookup)
+			return ok && lk.CommaOk && set(lk.X) && key(lk.Index)
+		}
+		lk, ok := v.(*ssa.Lookup)
+		if !ok || lk.CommaOk || !set(lk.X) || !key(lk.Index) {
+			return false
+		}
+		mt, ok := lk.X.Type().Underlying().(*types.Map)
+		if !ok {
+			return false
+		}
+		if b, isB := mt.Elem().Underlying().(*types.Basic); !isB || b.Kind() != types.Bool {
+			return false
+		}
+		return p.onlyTrueStored(mt)
+	}
+}
+
+// onlyTrueStored: every store into a map of this type in the module stores the constant true.
+func (p *Prog) onlyTrueStored(mt *types.Map) bool {
+	ok := true
+	n := 0
+	for _, f := range p.funcs {
+		allInstrs(f, func(in ssa.Instruction) {
+			mu, isMU := in.(*ssa.MapUpdate)
+			if !isMU || !types.Identical(mu.Map.Type().Underlying(), mt) {
+				return
+			}
+			n++
+			if !vConstBool(true)(mu.Value) {
+				ok = false
+			}
+		})
+	}
+	return ok && n > 0
+}
